@@ -324,6 +324,11 @@ pub fn run_c20(ctx: &mut Ctx) {
             let id = format!("k{i}_");
             let cfg = Cfg::rich(ptrw, &id);
             let mut g = gen_prog::generate(&mut rng, &cfg);
+            if i % 40 == 13 {
+                // a description in which a module imports an item called `u8` and has gaps
+                let sp = crate::gen_special::shadow_programs(i);
+                g.mods = sp[(i / 40) % sp.len()].1.clone();
+            }
             if i % 3 == 2 {
                 // hostile original: if pyxis accepts it, its rewrites must behave all the same
                 crate::hostile::perturb(&mut g.mods, &mut rng);
@@ -614,6 +619,17 @@ pub fn run_c19(ctx: &mut Ctx) {
                     v.push((ItemPath::from(format!("{id}exposer").as_str()), exposer));
                     variants.push(("private-types-exposed-by-another-module", v));
                 }
+            }
+            // an unrelated module whose items are named like predefined types, written before
+            // and after the observed module
+            {
+                let legacy = pyxis::parser::parse_str("#[align(2)] pub type u16 { pub x: u8, pub y: u8, }\n#[size(4), align(4)] extern type u8;\npub enum bool: u32 { A, }\n#[align(4)] pub type Old { pub a: u16, pub b: u8, pub c: bool, pub d: u32, pub e: u64, pub f: f32, }").expect("legacy module parses");
+                let mut v = g.mods.clone();
+                v.push((ItemPath::from(format!("{id}legacy").as_str()), legacy.clone()));
+                variants.push(("predefined-names-shadowed-elsewhere/after", v));
+                let mut v = g.mods.clone();
+                v.insert(0, (ItemPath::from(format!("{id}legacy").as_str()), legacy));
+                variants.push(("predefined-names-shadowed-elsewhere/before", v));
             }
             // filler to change hash-map capacity
             {
